@@ -2,7 +2,7 @@
 """Print the E4 (trigdom) result for every operator class whose resolved ``compute_matrix`` takes at
 least one gate parameter: per-parameter Fourier support, exactness, period, closure, shape.
 
-    cd /verif && /venv/bin/python tools/e4_table.py [--root /repo] [--all] [ClassName ...]
+    cd /verif && /venv/bin/python tools/e4_table.py [--root /repo] [--why] [ClassName ...]
 
 ``~`` after a support = not exact (over-approximation; may prove, may not refute).  Static
 analysis only: pennylane is never imported.
@@ -30,7 +30,6 @@ def fmt_set(fs):
 def main():
     ap = argparse.ArgumentParser()
     ap.add_argument("--root", default="/repo")
-    ap.add_argument("--all", action="store_true", help="also list classes that stay at Top")
     ap.add_argument("--why", action="store_true", help="print the resolution note for every class")
     ap.add_argument("names", nargs="*")
     args = ap.parse_args()
